@@ -32,7 +32,7 @@ fn render(e: &Error) -> bool {
 
 //@ prop: C11
 //@ family: K11-display
-//@ tier: quick
+//@ tier: thorough
 //@ functions: <Error as Display>::fmt, <ErrorKind as Display>::fmt (UnexpectedEob, InvalidReservation arms)
 //@ inst: core::fmt::Write sink discarding text
 //@ inputs: UnexpectedEob{requested, remaining} and InvalidReservation{buffer_len, start..end}, symbolic fields 0..=9
@@ -138,7 +138,7 @@ fn k11_display_invalid_string() {
 
 //@ prop: C11
 //@ family: K11-display
-//@ tier: quick
+//@ tier: thorough
 //@ functions: <InvalidDataErrorKind as Display>::fmt (IllegalValue, OutOfRange arms), From<TryFromIntError> for Error
 //@ inst: core::fmt::Write sink
 //@ inputs: IllegalValue{value: None | Some(-9..=9)}; OutOfRange{value, min, max in -9..=9}
